@@ -45,15 +45,15 @@ def pARep : String → ARep
 def statusS : Status → String
   | .ok => "ok" | .valueError => "ValueError" | .typeError => "TypeError" | .attributeError => "AttributeError"
 
-def step (ts : List String) : String :=
-  match ts with
+/-- the two SART commands, returning the parsed guess together with the model's result -/
+def sartCmd : List String → Option (Guess Float × Except Err (List Float × List Float))
   -- sart n m maxit relax tol <guess> W(m*n) b(m)
   | "sart" :: n :: m :: it :: w :: tol :: r =>
       let (e1, g, r) := pGuess r
       let n := pN n; let m := pN m
       let (Wf, r) := takeF (m * n) r
       let (b, _) := takeF m r
-      sartOut (sartRun e1 n (rowsOf n m Wf) none b g (pN it) (pF w) (pF tol))
+      some (g, sartRun e1 n (rowsOf n m Wf) none b g (pN it) (pF w) (pF tol))
   -- csart n m maxit relax tol beta <guess> W(m*n) b(m) L(n*n)
   | "csart" :: n :: m :: it :: w :: tol :: beta :: r =>
       let (e1, g, r) := pGuess r
@@ -61,7 +61,20 @@ def step (ts : List String) : String :=
       let (Wf, r) := takeF (m * n) r
       let (b, r) := takeF m r
       let (Lf, _) := takeF (n * n) r
-      sartOut (sartRun e1 n (rowsOf n m Wf) (some (rowsOf n n Lf, pF beta)) b g (pN it) (pF w) (pF tol))
+      some (g, sartRun e1 n (rowsOf n m Wf) (some (rowsOf n n Lf, pF beta)) b g (pN it) (pF w) (pF tol))
+  | _ => none
+
+/-- what the caller's `initial_guess` object holds after the call (`guessAfter`) -/
+def guessOut : Guess Float → String
+  | .none => "none"
+  | .scalar v => s!"scalar {fF v}"
+  | .array xs => s!"array {xs.length} {fFs xs}"
+
+def step (ts : List String) : String :=
+  match ts with
+  | "sart" :: _ | "csart" :: _ => (sartCmd ts).elim "bad-op" (fun gr => sartOut gr.2)
+  -- ga <sart … | csart …> -> state of the caller's initial_guess object after that call
+  | "ga" :: r => (sartCmd r).elim "bad-op" (fun gr => guessOut (guessAfter gr.1 gr.2))
   -- nnls m n alpha hasL W b [L] xsol(n) rnorm  ->  vmax | C/v | d/v | x | rnorm*vmax
   | "nnls" :: m :: n :: a :: hasL :: r =>
       let n := pN n; let m := pN m
